@@ -17,29 +17,33 @@ type c14Variant struct {
 	n      int
 	prefix string
 	racev  bool
+	pie    bool   // position-independent executable: the binary's type descriptors lie ABOVE the heap, so run-time-created types are below the window
 	order  string // "": encode and decode interleaved per value; "enc-first": every value is encoded before the first decode of the process; "dec-first": the converse
 }
 
 func c14Variants(tier string) []c14Variant {
 	v := []c14Variant{
-		{"n50", 50, "T", false, ""},
-		{"n500-zq", 500, "Zq", false, ""},
-		{"n5000", 5000, "T", false, ""},
-		{"n500-racevariant", 500, "Aa", true, ""},
-		{"n800-encfirst", 800, "T", false, "enc-first"},
-		{"n800-decfirst", 800, "T", false, "dec-first"},
+		{"n50", 50, "T", false, false, ""},
+		{"n500-zq", 500, "Zq", false, false, ""},
+		{"n5000", 5000, "T", false, false, ""},
+		{"n500-racevariant", 500, "Aa", true, false, ""},
+		{"n800-encfirst", 800, "T", false, false, "enc-first"},
+		{"n800-decfirst", 800, "T", false, false, "dec-first"},
+		{"n500-pie", 500, "T", false, true, ""},
 	}
 	if tier == "thorough" {
 		v = append(v,
-			c14Variant{"n20000", 20000, "T", false, ""},
-			c14Variant{"n5000-aa", 5000, "Aa", false, ""},
-			c14Variant{"n2000-zq", 2000, "Zq", false, ""},
-			c14Variant{"n5000-racevariant", 5000, "T", true, ""},
-			c14Variant{"n200", 200, "Mid", false, ""},
-			c14Variant{"n10000-zq", 10000, "Zq", false, ""},
-			c14Variant{"n5000-encfirst", 5000, "Zq", false, "enc-first"},
-			c14Variant{"n5000-decfirst", 5000, "Zq", false, "dec-first"},
-			c14Variant{"n800-encfirst-racevariant", 800, "T", true, "enc-first"},
+			c14Variant{"n20000", 20000, "T", false, false, ""},
+			c14Variant{"n5000-aa", 5000, "Aa", false, false, ""},
+			c14Variant{"n2000-zq", 2000, "Zq", false, false, ""},
+			c14Variant{"n5000-racevariant", 5000, "T", true, false, ""},
+			c14Variant{"n200", 200, "Mid", false, false, ""},
+			c14Variant{"n10000-zq", 10000, "Zq", false, false, ""},
+			c14Variant{"n5000-encfirst", 5000, "Zq", false, false, "enc-first"},
+			c14Variant{"n5000-decfirst", 5000, "Zq", false, false, "dec-first"},
+			c14Variant{"n800-encfirst-racevariant", 800, "T", true, false, "enc-first"},
+			c14Variant{"n5000-pie", 5000, "Zq", false, true, ""},
+			c14Variant{"n800-pie-decfirst", 800, "T", false, true, "dec-first"},
 		)
 	}
 	return v
@@ -113,6 +117,9 @@ func c14Prepare(e *runner.Env, tier string) ([]runner.Job, error) {
 			os.WriteFile(filepath.Join(dir, "types_gen.go"), []byte(c14Source(v)), 0o644)
 			out := filepath.Join(e.WorkDir, "c14-"+v.name)
 			args := []string{"build", "-o", out}
+			if v.pie {
+				args = append(args, "-buildmode=pie")
+			}
 			tags := "verif"
 			if v.racev {
 				tags += ",vshim,vracevar"
